@@ -432,6 +432,44 @@ def run(tier, seed, replay=None):
                       answer(lambda: Discard(n)(*bad)))
         cases.flush(drv)
 
+        # ---- stream exotic (oracle only): "all input tuples" — any non-tuple Python object is a
+        # legitimate wire value (None, strings, floats, lists, dicts); structural diagrams must
+        # permute / duplicate / delete them as a whole
+        def exotic(r):
+            return r.choice([None, None, "s", "", 0, 1.5, [1, 2], [], {"k": 1}, True, False, 7])
+        for k in range(400 if thorough else 80):
+            r = random.Random(rng.getrandbits(64))
+            a, b, c = r.randint(0, 3), r.randint(0, 3), r.randint(0, 2)
+            xs = [exotic(r) for _ in range(a)]
+            ys = [exotic(r) for _ in range(b)]
+            zs = [exotic(r) for _ in range(c)]
+            trials = [
+                ("swap", lambda: Swap(a, b)(*(xs + ys)), ys + xs),
+                ("copy", lambda: Copy(a)(*xs), xs + xs),
+                ("discard", lambda: Discard(a)(*xs), []),
+                ("id@swap", lambda: (Id(c) @ Swap(a, b))(*(zs + xs + ys)), zs + ys + xs),
+                ("swap@id", lambda: (Swap(a, b) @ Id(c))(*(xs + ys + zs)), ys + xs + zs),
+                ("copy>>discard@id", lambda: (Copy(a) >> Discard(a) @ Id(a))(*xs), xs),
+                ("id@discard", lambda: (Id(a) @ Discard(b))(*(xs + ys)), xs),
+            ]
+            for name, call, want in trials:
+                rep.count("exotic:" + name)
+                case = dict(stream="exotic", what=name, inputs=repr((xs, ys, zs)))
+                try:
+                    got = call()
+                except Exception as exc:
+                    rep.fail("exotic_values:" + name, case, "raised %r" % (exc,))
+                    continue
+                gotw = list(got) if isinstance(got, tuple) else [got]
+                # Python's convention: a single value is returned bare; compare as wire lists
+                if len(want) == 1:
+                    ok = (got == want[0] and type(got) is type(want[0])) or gotw == want
+                else:
+                    ok = gotw == want and all(type(p) is type(q) for p, q in zip(gotw, want))
+                rep.case("exotic %s %r" % (name, (xs, ys, zs)), len(want) >= 2)
+                if not ok:
+                    rep.fail("exotic_values:" + name, case, "got %r, expected wires %r" % (got, want))
+
         # ---- stream natural: the cartesian axioms on the real code (both sides also on the model)
         n_nat = 600 if thorough else 120
         for k in range(n_nat):
